@@ -2,7 +2,12 @@
 from vlib.common import CheckerError
 
 META = {
-    "level": "exploration",
+    "level": "other",
+    "structural": "Deductive (unbounded): the label post-processing of fit_single.fit_from_string and fit_single.string_to_aifeyn (from the allocation of new_labels to the end of the "
+                  "replace_floats block) is verified from the AST for label lists of any length, with strings abstract and the tree's parent pointers an arbitrary prefix structure: "
+                  "Mul/Add/Div/Sub become * + / -, every other label is lower-cased; without replace_floats every label keeps that text (numeric constants keep their values); "
+                  "with replace_floats exactly the numbers whose parent operator is not pow and the labels that already look like parameters become a<k>, k counting them in order of "
+                  "position -- a number directly under pow keeps its text. The tree walk itself (sympy objects, DecoratedNode) is outside the verifier's reach and is bounded.",
     "text": "Bounded stand-in on the real string API (generator.string_to_node, DecoratedNode.to_list, fit_single.string_to_aifeyn and "
             "fit_single.fit_from_string with single_function replaced by a recorder, so that the relabelling / float-replacement code of both entry "
             "points runs unchanged): formulas are generated from a grammar over x, a0..a2, 1, 2, 3, 1.5, 0.25, the unary operators of the basis by "
@@ -17,7 +22,8 @@ META = {
     "note": "Bounded; the reference value of a formula does not depend on any parser (AST evaluator in /verif/harness/rt_c18.py, two working "
             "precisions and a perturbation probe: ill-conditioned points decide nothing). A disagreement between the two references is a checker error, "
             "not a violation. Formulas that are undefined at all sample points are outside the property and are skipped.",
-    "technique": "bounded stand-in (grammar-based generation, exhaustive small formulas + seeded samples) with an independent evaluator on the real code",
+    "technique": "contract-based deductive verification of the label post-processing of both string entry points (AST->VC->SMT, abstract strings, filter primitives) + "
+                 "bounded stand-in (grammar-based generation, exhaustive small formulas + seeded samples) with an independent evaluator on the real code",
 }
 CHECKER = "./bin/check C18"
 
@@ -37,8 +43,28 @@ def key_of(f):
     return ("c18:%s:%s:%s" % (f["sig"], f["name"], f["formula"])).replace(" ", "")
 
 
+def deductive(run):
+    from vlib import deductive as D
+    from contracts import c_fit_single
+    D.lemma_library(run)
+    failed = []
+    for fn in ("fit_from_string", "string_to_aifeyn"):
+        st, f, _e = D.verify_function(run, "fitting/fit_single.py", fn, (lambda fn=fn: c_fit_single.relabel_contract(fn)), timeout_ms=8000, tag="relabel",
+                                      note="region: from `new_labels = [None] * len(labels)` to the end of the `if replace_floats:` statement; labels_to_shape / check_tree "
+                                           "through call-site models (the label list is a well-formed prefix expression: every node but the root has an earlier parent)")
+        failed += f
+        if st != "unsupported" and D.canary(run, "fitting/fit_single.py", fn, (lambda fn=fn: c_fit_single.relabel_contract(fn))) is False:
+            raise RuntimeError("canary verified: engine vacuous on %s" % fn)
+    run.assume("A-str: strings are abstract; lower(), startswith('a'), s[1:], generator.is_float are uninterpreted functions/predicates of the string (lower idempotent, literals evaluated)",
+               "the label list handed to the post-processing is a well-formed prefix expression (check_tree succeeds and gives every non-root node an earlier parent): bounded part",
+               "lemma library: counting facts and extensionality of the filter primitives (CNT/IDX/RNK)")
+    run.trust("pyvc", "z3 5.1.0")
+    return failed
+
+
 def check(run):
     tier = run.tier
+    dfailed = deductive(run)
     jobs = [{"name": nm, "basis": b, "order": k, "exhaustive_depth1": True, "exhaustive_depth2": tier != "quick",
              "sample": 300 if tier == "quick" else 3000} for k, (nm, b) in enumerate(SHIPPED.items())]
     budget = 30
@@ -68,6 +94,9 @@ def check(run):
                       {"harness": "rt_c18.py", "timeout": 300,
                        "payload": {"formulas": [{"name": f["name"], "basis": f["basis"], "formula": f["formula"]}],
                                    "seed": run.seed, "workers": 1, "budget_s": budget}})
-    return run.finish("exploration", META["text"], CHECKER,
+    if dfailed and not run.violations:
+        from checks.C14 import report_unproved
+        report_unproved(run, dfailed, False, "fit_single.fit_from_string / string_to_aifeyn (label post-processing)")
+    return run.finish("other", META["structural"] + " " + META["text"], CHECKER,
                       rule="cases = formulas (defined at >= 1 sample point) converted by the real API; distinct_nontrivial = formulas whose tree was "
                            "compared numerically with the formula at >= 1 point (all power bases positive, well conditioned)")
